@@ -256,6 +256,7 @@ func genContainer(g *Gen, prop string, i int) Group {
 	case "C05":
 		cfg.PCycle = 0.55
 		cfg.PGroup = 0.3
+		cfg.POptional = 0.05
 		h.NOps = 6
 	case "C07":
 		cfg.PConflict = 0.5
@@ -402,9 +403,44 @@ func genContainer(g *Gen, prop string, i int) Group {
 			ops = append(ops, Op{Kind: "close", P: 0, H: hh}, Op{Kind: "close", P: 0, H: hh})
 		}
 	}
+	wide := false
 	if prop == "C11" || prop == "C12" || prop == "C13" || prop == "C10" {
-		if i%5 == 4 {
+		if i%5 == 4 || ((prop == "C11" || prop == "C12") && i%3 == 0) {
 			ops = append(ops, g.wideTree(regs, ops)...)
+			wide = true
+		}
+	}
+	if prop == "C08" && i%4 == 2 {
+		// Build once more after a registration that others need was removed: the second Build must notice
+		var victim *Reg
+		for _, r := range regs {
+			outs := regOutputs(r)
+			if len(outs) != 1 || outs[0].group != 0 || outs[0].ty == tVoid || len(r.As) > 0 {
+				continue
+			}
+			for _, o := range regs {
+				for _, prm := range o.Form.Params {
+					if !prm.Skip && !prm.Dep.Opt && prm.Dep.Group == 0 && prm.Dep.Ty == outs[0].ty && prm.Dep.Name == outs[0].name {
+						victim = r
+					}
+				}
+			}
+		}
+		if victim != nil {
+			id := regOutputs(victim)[0]
+			if id.name != 0 {
+				ops = append(ops, Op{Kind: "removekeyed", Ty: id.ty, Name: id.name})
+			} else {
+				ops = append(ops, Op{Kind: "remove", Ty: id.ty})
+			}
+			ops = append(ops, Op{Kind: "count"}, Op{Kind: "build"}, Op{Kind: "createscope", P: 1, Parent: 0})
+			for _, r := range regs {
+				for _, oid := range regOutputs(r) {
+					if oid.ty != tVoid && oid.group == 0 {
+						ops = append(ops, Op{Kind: "resolve", P: 1, H: 1, Ty: oid.ty, Name: oid.name})
+					}
+				}
+			}
 		}
 	}
 	if prop == "C12" || prop == "C13" {
@@ -440,7 +476,7 @@ func genContainer(g *Gen, prop string, i int) Group {
 		}
 		ops = with
 	}
-	slow := (prop == "C11" || prop == "C12" || prop == "C13" || prop == "C10") && i%3 == 1
+	slow := (prop == "C11" || prop == "C12" || prop == "C13" || prop == "C10") && (i%3 == 1 || wide)
 	return Group{Cases: []Case{{Name: fmt.Sprintf("%d", i), Ops: ops, SlowClose: slow}}}
 }
 
@@ -544,6 +580,7 @@ func genC17(g *Gen, i int) Group {
 		return out
 	}
 	var ops []Op
+	var ghostGroups []ident
 	nprov := 0
 	var builtWith [][]*Reg
 	var soFar []*Reg
@@ -589,7 +626,12 @@ func genC17(g *Gen, i int) Group {
 						d = 0
 					}
 					var bad *Reg
-					switch g.n(3) {
+					switch g.n(4) {
+					case 3:
+						// two members of one group, then an output that collides: nothing of it may stay, not even in the group
+						grp := 1 + g.n(2)
+						bad = &Reg{ID: g.nextRid, Life: g.life([3]int{1, 1, 1}), Form: Form{Kind: "result", Fields: []Field{{Ty: fresh, Group: grp}, {Ty: fresh, Group: grp}, {Ty: t.ty}}}, Dyn: []int{fresh, fresh, d}}
+						ghostGroups = append(ghostGroups, ident{fresh, 0, grp})
 					case 0:
 						bad = &Reg{ID: g.nextRid, Life: g.life([3]int{1, 1, 1}), Form: Form{Kind: "ctor", Rets: []int{fresh, t.ty}}, Dyn: []int{fresh, d}}
 					case 1:
@@ -649,6 +691,9 @@ func genC17(g *Gen, i int) Group {
 	}
 	ops = append(ops, Op{Kind: "build"})
 	nprov++
+	for _, gg := range ghostGroups {
+		ops = append(ops, Op{Kind: "resolvegroup", P: nprov - 1, H: 0, Ty: gg.ty, Group: gg.group})
+	}
 	for pi := 0; pi < nprov; pi++ {
 		hs := HistCfg{NOps: 5, MaxScopes: 1}
 		ops = append(ops, g.History(regs, pi, hs)...)
@@ -663,9 +708,10 @@ func genC17(g *Gen, i int) Group {
 func genC06(g *Gen, i int) Group {
 	cfg := defaultCfg()
 	cfg.NRegs = 4 + g.n(7)
-	cfg.PGroup = 0.35
+	cfg.PGroup = 0.4
 	cfg.PAs = 0.2
-	cfg.LifeWeights = [3]int{6, 2, 2}
+	cfg.MaxDeps = 4
+	cfg.LifeWeights = [3]int{5, 1, 4}
 	cfg.PCycle, cfg.PConflict, cfg.PMissing = 0.1, 0.1, 0.1
 	regs := g.RegSet(cfg)
 	// the same history for every variant
@@ -790,16 +836,25 @@ func (g *Gen) wideTree(regs []*Reg, before []Op) []Op {
 			}
 		}
 	}
-	var ids []ident
+	var ids, dis []ident
 	for _, r := range regs {
 		if r.Life == Singleton {
 			continue
 		}
-		for _, id := range regOutputs(r) {
+		for k, id := range regOutputs(r) {
 			if id.ty != tVoid {
 				ids = append(ids, id)
+				if len(r.As) > 0 {
+					k = 0
+				}
+				if k < len(r.Dyn) && r.Dyn[k] >= 8 {
+					dis = append(dis, id)
+				}
 			}
 		}
+	}
+	if len(dis) > 0 {
+		ids = append(dis, dis...) // mostly things that have a Close
 	}
 	res := func(h int) []Op {
 		var out []Op
@@ -823,10 +878,17 @@ func (g *Gen) wideTree(regs []*Reg, before []Op) []Op {
 	ops = append(ops, res(parent)...)
 	k := 3 + g.n(4)
 	var kids []int
+	ownCtx := g.p(0.5) // children with a context of their own are not woken by the parent's cancellation: only the parent's Close reaches them
+	nextCtx := maxCtx + 2
 	for j := 0; j < k; j++ {
 		h := parent + 1 + j
 		kids = append(kids, h)
-		ops = append(ops, Op{Kind: "createscope", P: 0, Parent: parent})
+		o := Op{Kind: "createscope", P: 0, Parent: parent}
+		if ownCtx {
+			o.Ctx = nextCtx
+			nextCtx++
+		}
+		ops = append(ops, o)
 		ops = append(ops, res(h)...)
 	}
 	gc := parent + k + 1
